@@ -20,6 +20,10 @@ class FormatPart:
 
 
 def raise_(cls, *args, node=None):
+    import os
+    if os.environ.get("PYVC_TRACE_RAISE"):
+        import traceback
+        print("RAISE", cls.__name__, args, "".join(traceback.format_stack(limit=14)[-12:-1])[-1800:])
     raise SymRaise(ExcValue(cls, tuple(args)), node)
 
 
